@@ -61,8 +61,10 @@ from vlib import env
 THEOREMS = [
     "section_match_iff", "extra_is_unmatched_suffix", "iter_by_parts_spec",
     "most_specific_first", "sorted_is_permutation", "value_from_first_defining",
-    "ignore_parents_stops", "ignore_parents_own_section_witness", "ignore_parents_partial",
-    "appendpath_value", "relpath_basename_expansion", "no_policy_plain_value",
+    "none_iff_no_section_defines",
+    "ignore_parents_stops", "ignore_parents_gap", "ignore_parents_partial",
+    "ignore_parents_own_section_witness",
+    "no_policy_plain_value", "appendpath_value", "relpath_basename_expansion",
     "starting_sections_spec", "store_roundtrip", "store_set_other_unchanged",
     "unquote_quoted",
 ]
@@ -85,6 +87,20 @@ TRUSTED = [
 
 NAMES = ["foo", "bar", "baz"]
 LINEBREAKS = "\n\r\x0b\x0c\x1c\x1d\x1e\x85\u2028\u2029"
+
+
+_FAMILY_SEEN = {}
+
+
+def _violation(ctx, case, what, family=None):
+    """record a property violation; a known input family is recorded a few times
+    only (and counted), so that it cannot crowd out a NEW violation's replay"""
+    if family is not None:
+        ctx.count("finding:" + family)
+        _FAMILY_SEEN[family] = _FAMILY_SEEN.get(family, 0) + 1
+        if _FAMILY_SEEN[family] > 3:
+            return
+    ctx.violation(case, what, family=family)
 
 
 # ----------------------------------------------------------------------
@@ -175,14 +191,40 @@ def ini_line(k, v):
     return "%s = %s" % (k, v)
 
 
+def globbed(rng, comp):
+    """a glob that matches the component"""
+    r = rng.random()
+    if r < 0.5 or not comp:
+        return comp
+    if r < 0.65:
+        return "*"
+    if r < 0.75:
+        return comp[0] + "*"
+    if r < 0.85:
+        return "?" * len(comp) if len(comp) <= 2 else "*" + comp[-1]
+    if comp[0].isascii() and comp[0].isalnum():
+        return "[%sz]" % comp[0] + comp[1:]
+    return comp
+
+
 def g_store(rng, bad=False):
     lines = []
     if rng.random() < 0.3:
         for k, v in g_options(rng):
             lines.append(ini_line(k, v))
     ids = []
+    chain = None
+    if rng.random() < 0.55:
+        # sections along ONE path: several of them match the same location
+        chain = [""] + [rng.choice(COMP) for _ in range(rng.randint(2, 5))]
     for _ in range(rng.randint(1, 6)):
-        sid = g_section_id(rng, bad=bad)
+        if chain and rng.random() < 0.8:
+            k = rng.randint(2, len(chain))
+            sid = "/".join([chain[0]] + [globbed(rng, c) for c in chain[1:k]])
+            if rng.random() < 0.1:
+                sid += "/"
+        else:
+            sid = g_section_id(rng, bad=bad)
         if sid in ids:
             continue
         ids.append(sid)
@@ -221,6 +263,22 @@ def g_location(rng, ids):
 
 # ----------------------------------------------------------------------
 # real code
+_CUT = [None]
+
+
+def cut_variant():
+    """which cut LocationMatcher.get_sections implements, probed on the live code:
+    'excl' = the section saying ignore_parents=true is itself not consulted (the
+    code as found), 'incl' = it is the last one consulted (documented; the patch
+    proposed with finding ignore-parents-own-section-dropped)"""
+    if _CUT[0] is None:
+        from breezy import config
+        store = load_store("[/p]\nignore_parents = true\nfoo = x\n")
+        ids = [s.id for _, s in config.LocationMatcher(store, "/p").get_sections()]
+        _CUT[0] = "incl" if ids == ["/p"] else "excl"
+    return _CUT[0]
+
+
 def load_store(text):
     from breezy import config
     store = config.IniFileStore()
@@ -419,7 +477,7 @@ def run_locations(ctx, n_stores, bad_ratio=0.06):
             want = ",".join("%s>%s>%d" % (enc(s), enc("/".join(lp[len(o_parts(s)):])), len(o_parts(s)))
                             for s in named if o_matches(s, loc)) or "-"
             if got != want:
-                ctx.violation(case, "_iter_for_location_by_parts(%r, %r): got %s, documented %s" % (
+                _violation(ctx, case, "_iter_for_location_by_parts(%r, %r): got %s, documented %s" % (
                     named, loc, _pp_list(got), _pp_list(want)))
             ctx.case(case, nontrivial=anymatch)
             ctx.count("op:it")
@@ -430,10 +488,13 @@ def run_locations(ctx, n_stores, bad_ratio=0.06):
             for op in ("ms", "ss"):
                 case = dict(op=op, loc=loc, text=text)
                 got = real_sections(store, op, loc)
+                if op == "ss":
+                    oracle_starting(ctx, case, secs, loc, got)
                 ctx.case(case, nontrivial=anymatch)
                 ctx.count("op:" + op)
                 cases.append(case)
-                lines.append("%s %s %s" % (op, enc(loc), esecs))
+                lines.append(("ms %s %s %s" % (cut_variant(), enc(loc), esecs)) if op == "ms"
+                             else "ss %s %s" % (enc(loc), esecs))
                 outs.append(got if grammar else "G")
             # ---- values
             for name in NAMES:
@@ -446,7 +507,7 @@ def run_locations(ctx, n_stores, bad_ratio=0.06):
                         oracle_location(ctx, case, secs, loc, name, got, nonlocal_ref)
                     ctx.case(case, nontrivial=anymatch)
                     cases.append(case)
-                    lines.append("%s %s %s %s" % (op, enc(loc), enc(name), esecs))
+                    lines.append(_vline(op, loc, name, esecs))
                     if not grammar:
                         outs.append("G")
                     elif nonlocal_ref and (got.startswith("E:Expanding") or got.startswith("E:OptionExpansionLoop")):
@@ -464,6 +525,12 @@ def run_locations(ctx, n_stores, bad_ratio=0.06):
             ctx.count("unmodelled-ref")
             continue
         ctx.mismatch(c, i, m, line=l)
+
+
+def _vline(op, loc, name, esecs):
+    if op == "lm":
+        return "lm %s %s %s %s" % (cut_variant(), enc(loc), enc(name), esecs)
+    return "sp %s %s %s" % (enc(loc), enc(name), esecs)
 
 
 def _pp_list(s):
@@ -490,8 +557,27 @@ def oracle_location(ctx, case, secs, loc, name, got, nonlocal_ref):
     alt = show(None if dropped is None else o_unquote(dropped))
     if from_ignoring and got == alt:
         fam = "ignore-parents-own-section-dropped"
-    ctx.violation(case, "location %r option %r: got %s, documented semantics give %s" % (
+    _violation(ctx, case, "location %r option %r: got %s, documented semantics give %s" % (
         loc, name, _pp(got), _pp(want)), family=fam)
+
+
+def oracle_starting(ctx, case, secs, loc, got):
+    """StartingPathMatcher: later sections of the file are more specific and come
+    first; a section applies when its id is a string prefix of the location or
+    globs it as a whole; the no-name section comes last"""
+    lp = o_parts(loc)
+    want = []
+    try:
+        for sid, _ in reversed(secs):
+            if sid is not None and (loc.startswith(sid) or fnmatch.fnmatchcase(loc, sid)):
+                want.append(enc(sid) + ">" + enc("/".join(lp[len(o_parts(sid)):])))
+    except Exception:
+        return
+    if secs and secs[0][0] is None:
+        want.append("~>" + enc(loc))
+    want = ",".join(want) or "-"
+    if got != want:
+        _violation(ctx, case, "StartingPathMatcher(%r) yields %s, documented order %s" % (loc, _pp_list(got), _pp_list(want)))
 
 
 def _pp(s):
@@ -533,9 +619,13 @@ def needs_quoting(v):
 
 def roundtrip_case(args):
     """set -> save -> fresh store -> get, on a real TransportIniFileStore"""
-    d, section, others, name, value = args
+    d, section, others, name, value, value2 = args
     from breezy import config, transport
-    t = transport.get_transport_from_path(d)
+    if d is None:
+        from dromedary.memory import MemoryTransport     # same store code, bytes kept in memory
+        t = MemoryTransport()
+    else:
+        t = transport.get_transport_from_path(d)
     try:
         t.delete("rt.conf")
     except Exception:
@@ -545,6 +635,7 @@ def roundtrip_case(args):
     try:
         for k, v in others:
             st.set(k, v)
+        st.set(name, "overwritten " + value2)      # an earlier value of the same option must not survive
         st.set(name, value)
         store.save()
     except Exception as e:
@@ -563,7 +654,7 @@ def roundtrip_case(args):
     # second generation: overwrite on the loaded store, save, load again
     try:
         st3 = config.Stack([store2.get_sections], store2, mutable_section_id=section)
-        st3.set(name, value)
+        st3.set(name, value2)
         store2.save()
         store4 = config.TransportIniFileStore(t, "rt.conf")
         st4 = (config.Stack([store4.get_sections], store4) if section is None
@@ -591,29 +682,34 @@ def run_roundtrip(ctx, n):
             others.append((k, v))
         name = "opt"
         case = dict(op="rt", value=value, section=section, others=others)
-        res = roundtrip_case((d, section, others, name, value))
+        value2 = g_rt_value(rng)
+        while rt_family(value2):
+            value2 = g_rt_value(rng)
+        case["value2"] = value2
+        res = roundtrip_case((d if rng.random() < 0.1 else None, section, others, name, value, value2))
         fam = next((f for f in [rt_family(value)] + [rt_family(v) for _, v in others] if f), None)
         ctx.case(case, nontrivial=needs_quoting(value))
         ctx.count("op:rt")
         ctx.count("rt:len%d" % min(len(value), 12))
         if "set_error" in res:
             ctx.count("rt:set-error")
-            ctx.violation(case, "Stack.set(%r) / save raised %s" % (value, res["set_error"]), family=fam)
+            _violation(ctx, case, "Stack.set(%r) / save raised %s" % (value, res["set_error"]), family=fam)
             continue
         if res[name] != value:
             ctx.count("rt:differs")
-            ctx.violation(case, "value %r read back as %r" % (value, res[name]), family=fam)
-        elif res["#again"] != value:
-            ctx.violation(case, "value %r read back as %r after a second set/save" % (value, res["#again"]), family=fam)
+            _violation(ctx, case, "value %r read back as %r" % (value, res[name]), family=fam)
+        elif res["#again"] != value2:
+            _violation(ctx, case, "loaded store: option set to %r, saved, read back as %r" % (value2, res["#again"]),
+                          family=fam)
         for k, v in others:
             if res[k] != v:
                 # the damaged target value may swallow following lines of the file
-                ctx.violation(case, "other option %s=%r read back as %r after setting %r" % (k, v, res[k], value),
+                _violation(ctx, case, "other option %s=%r read back as %r after setting %r" % (k, v, res[k], value),
                               family=fam)
                 break
         else:
             if res.get("#others_again") not in (None, [v for _, v in others]):
-                ctx.violation(case, "other options changed after the second save: %r" % (res["#others_again"],),
+                _violation(ctx, case, "other options changed after the second save: %r" % (res["#others_again"],),
                               family=fam)
 
 
@@ -639,15 +735,15 @@ def run_location_stack(ctx, n):
             got_below = config.LocationStack(below).get(name)
             other = config.LocationStack("/elsewhere%d" % i).get(name)
         except Exception as e:
-            ctx.violation(case, "LocationStack set/get raised %s" % type(e).__name__)
+            _violation(ctx, case, "LocationStack set/get raised %s" % type(e).__name__)
             continue
         ctx.case(case, nontrivial=needs_quoting(value))
         ctx.count("op:locstack")
         if got_here != value or got_below != value:
-            ctx.violation(case, "LocationStack(%r).set(%r): read back %r at the location, %r below it" % (
+            _violation(ctx, case, "LocationStack(%r).set(%r): read back %r at the location, %r below it" % (
                 loc, value, got_here, got_below))
         if other is not None:
-            ctx.violation(case, "value set for %r is visible at an unrelated location: %r" % (loc, other))
+            _violation(ctx, case, "value set for %r is visible at an unrelated location: %r" % (loc, other))
 
 
 def run_unquote(ctx, n):
@@ -701,20 +797,22 @@ def run(ctx):
         for fn in sorted(os.listdir(cdir)):
             if fn.endswith(".json"):
                 _replay_one(ctx, json.load(open(os.path.join(cdir, fn))))
-    run_helpers(ctx, ctx.pick(300, 3000))
-    run_unquote(ctx, ctx.pick(1000, 10000))
-    run_locations(ctx, ctx.pick(500, 6000))
-    run_roundtrip(ctx, ctx.pick(2500, 30000))
-    run_location_stack(ctx, ctx.pick(40, 400))
+    ctx.extra["ignore_parents_cut_variant"] = cut_variant()
+    run_helpers(ctx, ctx.pick(500, 5000))
+    run_unquote(ctx, ctx.pick(2000, 20000))
+    run_locations(ctx, ctx.pick(1500, 20000))
+    run_roundtrip(ctx, ctx.pick(6000, 80000))
+    run_location_stack(ctx, ctx.pick(60, 600))
 
 
 def _replay_one(ctx, case):
     op = case["op"]
     if op == "rt":
         d = env.fresh_dir("rt")
-        res = roundtrip_case((d, case["section"], [tuple(x) for x in case["others"]], "opt", case["value"]))
+        res = roundtrip_case((d, case["section"], [tuple(x) for x in case["others"]], "opt", case["value"],
+                              case.get("value2", "second")))
         if res.get("opt") != case["value"]:
-            ctx.violation(case, "value %r read back as %r" % (case["value"], res.get("opt", res)),
+            _violation(ctx, case, "value %r read back as %r" % (case["value"], res.get("opt", res)),
                           family=rt_family(case["value"]))
         return dict(impl=res, model="identity (store_roundtrip, abstract quote/unquote)")
     if op == "uq":
@@ -731,7 +829,7 @@ def _replay_one(ctx, case):
         st.store.unload()
         got = config.LocationStack(case["loc"]).get(case["name"])
         if got != case["value"]:
-            ctx.violation(case, "LocationStack: %r read back as %r" % (case["value"], got))
+            _violation(ctx, case, "LocationStack: %r read back as %r" % (case["value"], got))
         return dict(impl=got, model="identity")
     if op in ("jn", "bn"):
         from breezy import urlutils
@@ -747,7 +845,7 @@ def _replay_one(ctx, case):
         want = ",".join("%s>%s>%d" % (enc(s), enc("/".join(lp[len(o_parts(s)):])), len(o_parts(s)))
                         for s in case["ids"] if o_matches(s, case["loc"])) or "-"
         if got != want:
-            ctx.violation(case, "_iter_for_location_by_parts: got %s, documented %s" % (_pp_list(got), _pp_list(want)))
+            _violation(ctx, case, "_iter_for_location_by_parts: got %s, documented %s" % (_pp_list(got), _pp_list(want)))
         return dict(impl=_pp_list(got),
                     model=ctx.model(["it %s %s" % (enc(case["loc"]), ",".join(enc(s) for s in case["ids"]) or "-")])[0])
     store = load_store(case["text"])
@@ -755,11 +853,14 @@ def _replay_one(ctx, case):
     esecs = enc_sections(secs)
     if op in ("ms", "ss"):
         got = real_sections(store, op, case["loc"])
-        return dict(impl=_pp_list(got), model=_pp_list(ctx.model(["%s %s %s" % (op, enc(case["loc"]), esecs)])[0]))
+        if op == "ss":
+            oracle_starting(ctx, case, secs, case["loc"], got)
+        line = ("ms %s %s %s" % (cut_variant(), enc(case["loc"]), esecs)) if op == "ms" else "ss %s %s" % (enc(case["loc"]), esecs)
+        return dict(impl=_pp_list(got), model=_pp_list(ctx.model([line])[0]))
     got = real_get(store, op, case["loc"], case["name"])
     if op == "lm":
         oracle_location(ctx, case, secs, case["loc"], case["name"], got, has_nonlocal_ref(secs))
-    model = ctx.model(["%s %s %s %s" % (op, enc(case["loc"]), enc(case["name"]), esecs)])[0]
+    model = ctx.model([_vline(op, case["loc"], case["name"], esecs)])[0]
     return dict(impl=_pp(got), model=_pp(model), sections=secs)
 
 
